@@ -3,6 +3,7 @@ package driver
 import (
 	"os"
 
+	"github.com/flowmatters/openwater-core/data"
 	"github.com/flowmatters/openwater-core/sim"
 	"verif/domains"
 	"verif/simrt"
@@ -178,11 +179,42 @@ func engineCells(rc *RunCtx) *Outcome {
 	width := len(c.stateRows[0])
 	c.reference()
 	o.Sample = c.sample()
+	// a re-calibrated model: in a fifth of the cases the model object is first given other parameter
+	// values through the SAME matrix object, the matrix is then overwritten in place with the values
+	// of this case and applied again (what a calibration loop does); half of the Go-backed matrices
+	// are a column window of a wider table
+	reparam := rc.W.Bool(20)
+	windowed := reparam && !c.CPar && rc.W.Bool(50)
+	var altCols [][]float64
+	if reparam {
+		for j := 0; j < c.P; j++ {
+			force := 0
+			if j == 0 && c.MaxDim > 0 {
+				force = c.MaxDim
+			}
+			ac := domains.GenParams(rc.W, c.Model, c.MaxDim, force)
+			domains.ForceStateWidthClass(c.Model, ac, domains.StateWidthClass(c.Model, c.cols[j]))
+			altCols = append(altCols, ac)
+		}
+		o.Sample.(map[string]interface{})["parameters_reapplied_in_place"] = map[string]bool{"window_of_wider_table": windowed}
+	}
 	nIn, nOut := len(c.desc.Inputs), len(c.desc.Outputs)
 
 	for k := 0; k < K; k++ {
 		// fresh arrays and a fresh model object per schedule
-		params := paramMatrix(c.CPar, c.cols)
+		var params data.ND2Float64
+		if windowed {
+			rows := len(c.cols[0])
+			wide := mk2(false, rows, c.P+2, make([]float64, rows*(c.P+2)))
+			params = wide.Slice([]int{0, 1}, []int{rows, c.P}, nil).(data.ND2Float64)
+			for j, col := range c.cols {
+				for i := range col {
+					params.Set2(i, j, col[i])
+				}
+			}
+		} else {
+			params = paramMatrix(c.CPar, c.cols)
+		}
 		paramSnap := flat2(params)
 		iv := make([]float64, c.I*nIn*c.T)
 		for b := 0; b < c.I; b++ {
@@ -208,7 +240,24 @@ func engineCells(rc *RunCtx) *Outcome {
 			}
 		}
 		outputs := mk3(c.COut, oN, oO, oT, ov)
-		model := setupModel(c.Model, params)
+		var model sim.TimeSteppingModel
+		if reparam {
+			for j, col := range altCols {
+				for i := range col {
+					params.Set2(i, j, col[i])
+				}
+			}
+			model = setupModel(c.Model, params)
+			for j, col := range c.cols {
+				for i := range col {
+					params.Set2(i, j, col[i])
+				}
+			}
+			model.ApplyParameters(params)
+			o.probe("parameters_reapplied_through_the_same_matrix_object")
+		} else {
+			model = setupModel(c.Model, params)
+		}
 		if k == 0 && !c.Warm && !c.Arbitrary && c.WidestFirst {
 			// state initialisation per cell: InitialiseStates(N) of the vectorised model must give
 			// each cell the initial states of that cell alone (parameter sets repeat cyclically)
